@@ -365,6 +365,8 @@ def expected(rules, opts):
                 outs[0].append(E(x["which"], src=x["tok"]))
                 continue
             if x["t"] == "declrun":
+                if not x["decls"]:
+                    continue  # (a run of zero declarations is no text at all)
                 state["only_imports"] = False
                 state["only_layer_statements"] = False
                 conv_decls(x["decls"], outs[0])
